@@ -141,6 +141,72 @@ def p_augindex(x): x[0] += ["MUT"]
 def p_setfield(x): x.a = "MUT"
 def p_newfield(x): x.brand_new = "MUT"
 def p_augfield(x): x.l += ["MUT"]
+
+# values derived from a frozen value are fresh and may be mutated; the frozen original must not notice
+def d_list_mul1(x):
+    y = x * 1
+    y.append("MUT")
+    y[0] = "MUT"
+    y.clear()
+def d_list_rmul1(x):
+    y = 1 * x
+    y.insert(0, "MUT")
+    y.clear()
+def d_list_add(x):
+    y = x + []
+    y.append("MUT")
+    y.clear()
+def d_list_radd(x):
+    y = [] + x
+    y.append("MUT")
+    y.clear()
+def d_list_slice(x):
+    y = x[:]
+    y.append("MUT")
+    y.clear()
+    z = x[0:len(x)]
+    z.clear()
+def d_list_copy(x):
+    y = list(x)
+    y.clear()
+    z = sorted(x, key = lambda e: 0)
+    z.clear()
+    w = list(reversed(x))
+    w.clear()
+def d_list_iadd(x):
+    y = x * 1
+    y += ["MUT"]
+    y.clear()
+def d_dict_copy(x):
+    y = dict(x)
+    y["MUT-KEY"] = 1
+    y.clear()
+    z = x | {}
+    z.clear()
+    w = {} | x
+    w.clear()
+def d_dict_views(x):
+    k = x.keys()
+    k.append("MUT")
+    k.clear()
+    v = x.values()
+    v.clear()
+    i = x.items()
+    i.clear()
+def d_set_copy(x):
+    y = x | set()
+    y.add("MUT")
+    y.clear()
+    z = x.union([])
+    z.clear()
+    w = set(list(x))
+    w.clear()
+    u = x & x
+    u.clear()
+    t = x - set()
+    t.clear()
+    s = x ^ set()
+    s.clear()
 `
 
 var probes starlark.StringDict
@@ -245,6 +311,60 @@ func kindOf(v starlark.Value) string {
 
 // ---------------------------------------------------------------- oracle
 
+// assertFrozen applies every mutator to every mutable node reachable from g and requires an error and an unchanged snapshot.
+func assertFrozen(nodes []node, snap func() string, src string, th2 *starlark.Thread) (attempts int, err error) {
+	before := snap()
+	c := Case{Src: src}
+	for _, n := range nodes {
+		k := kindOf(n.v)
+		for i := range mutators {
+			m := &mutators[i]
+			if !strings.Contains(" "+m.kinds+" ", " "+k+" ") {
+				continue
+			}
+			applicable := m.would(n.v)
+			e := m.do(th2, n.v)
+			attempts++
+			if after := snap(); after != before {
+				return attempts, fmt.Errorf("%s applied to %s (reached via %s) changed a value reachable from the finished module (err=%v):\nbefore: %s\nafter:  %s\n%s",
+					m.name, n.path, n.via, e, clip(before), clip(after), c.Src)
+			}
+			if applicable && e == nil {
+				return attempts, fmt.Errorf("%s applied to %s (reached via %s) returned no error on a frozen value\n%s", m.name, n.path, n.via, c.Src)
+			}
+		}
+		// operations that derive a fresh value from the frozen one and then mutate the fresh value
+		for name, fn := range probes {
+			if !strings.HasPrefix(name, "d_"+k+"_") {
+				continue
+			}
+			_, e := starlark.Call(th2, fn, starlark.Tuple{n.v}, nil)
+			attempts++
+			if after := snap(); after != before {
+				return attempts, fmt.Errorf("%s: mutating a value derived from %s (reached via %s) changed the frozen original (err=%v):\nbefore: %s\nafter:  %s\n%s",
+					name, n.path, n.via, e, clip(before), clip(after), c.Src)
+			}
+		}
+		// every method the type advertises, with 0 and 1 arguments: nothing may change
+		if h, ok := n.v.(starlark.HasAttrs); ok && k != "rec" {
+			for _, name := range h.AttrNames() {
+				mv, _ := h.Attr(name)
+				if mv == nil {
+					continue
+				}
+				for _, args := range []starlark.Tuple{{}, {mut}, {starlark.MakeInt(0)}, {starlark.NewList([]starlark.Value{mut})}} {
+					starlark.Call(th2, mv, args, nil)
+					attempts++
+					if after := snap(); after != before {
+						return attempts, fmt.Errorf("method %s%v on %s (via %s) changed a frozen value:\nbefore: %s\nafter:  %s\n%s", name, args, n.path, n.via, clip(before), clip(after), c.Src)
+					}
+				}
+			}
+		}
+	}
+	return attempts, nil
+}
+
 func checkModule(c Case) error {
 	tr := &host.Trace{}
 	pre, thread := host.Env(tr, "c04")
@@ -299,41 +419,9 @@ func checkModule(c Case) error {
 	snap := func() string { return host.Canon(g) }
 	before := snap()
 	th2 := &starlark.Thread{Name: "c04-mutate"}
-	attempts := 0
-	for _, n := range nodes {
-		k := kindOf(n.v)
-		for i := range mutators {
-			m := &mutators[i]
-			if !strings.Contains(" "+m.kinds+" ", " "+k+" ") {
-				continue
-			}
-			applicable := m.would(n.v)
-			e := m.do(th2, n.v)
-			attempts++
-			if after := snap(); after != before {
-				return fmt.Errorf("%s applied to %s (reached via %s) changed a value reachable from the finished module (err=%v):\nbefore: %s\nafter:  %s\n%s",
-					m.name, n.path, n.via, e, clip(before), clip(after), c.Src)
-			}
-			if applicable && e == nil {
-				return fmt.Errorf("%s applied to %s (reached via %s) returned no error on a frozen value\n%s", m.name, n.path, n.via, c.Src)
-			}
-		}
-		// every method the type advertises, with 0 and 1 arguments: nothing may change
-		if h, ok := n.v.(starlark.HasAttrs); ok && k != "rec" {
-			for _, name := range h.AttrNames() {
-				mv, _ := h.Attr(name)
-				if mv == nil {
-					continue
-				}
-				for _, args := range []starlark.Tuple{{}, {mut}, {starlark.MakeInt(0)}, {starlark.NewList([]starlark.Value{mut})}} {
-					starlark.Call(th2, mv, args, nil)
-					attempts++
-					if after := snap(); after != before {
-						return fmt.Errorf("method %s%v on %s (via %s) changed a frozen value:\nbefore: %s\nafter:  %s\n%s", name, args, n.path, n.via, clip(before), clip(after), c.Src)
-					}
-				}
-			}
-		}
+	attempts, ferr := assertFrozen(nodes, snap, c.Src, th2)
+	if ferr != nil {
+		return ferr
 	}
 	// the module's own mutator functions
 	for name, v := range g {
@@ -374,6 +462,54 @@ func checkModule(c Case) error {
 		}
 	}
 
+	// Phase 2: a second module calls the first module's (frozen) functions, which may build fresh closures and
+	// values, and keeps the results in its own globals; when it has finished those must be deeply frozen too.
+	srcB := secondModule(g)
+	preB, threadB := host.Env(&host.Trace{}, "c04-second")
+	for k, v := range g {
+		preB[k] = v
+	}
+	preB["attempt"] = starlark.NewBuiltin("attempt", func(th *starlark.Thread, b *starlark.Builtin, args starlark.Tuple, kwargs []starlark.Tuple) (starlark.Value, error) {
+		if len(args) == 0 {
+			return starlark.None, nil
+		}
+		v, err := starlark.Call(th, args[0], args[1:], kwargs)
+		if err != nil {
+			return starlark.None, nil
+		}
+		return v, nil
+	})
+	threadB.SetMaxExecutionSteps(200000)
+	gB, errB := starlark.ExecFileOptions(&syntax.FileOptions{Set: c.Set}, threadB, "second.star", srcB, preB)
+	if errB != nil {
+		if _, ok := errB.(*starlark.EvalError); !ok {
+			return fmt.Errorf("harness: second module is statically invalid: %v\n%s", errB, srcB)
+		}
+	}
+	nodesB, _ := walk(gB)
+	snapB := func() string { return host.Canon(gB) + "\n--first--\n" + host.Canon(g) }
+	nB, ferr := assertFrozen(nodesB, snapB, c.Src+"\n# ---- second module ----\n"+srcB, th2)
+	if ferr != nil {
+		return fmt.Errorf("second module: %v", ferr)
+	}
+	attempts += nB
+	vk.S.ClassN("second-module-nodes", len(nodesB))
+	// calling the second module's functions afterwards (they may try to mutate what they captured) changes nothing
+	beforeB := snapB()
+	for _, name := range gB.Keys() {
+		if fn, ok := gB[name].(*starlark.Function); ok {
+			for _, args := range []starlark.Tuple{{}, {starlark.MakeInt(1)}} {
+				starlark.Call(th2, fn, args, nil)
+				attempts++
+				if after := snapB(); after != beforeB {
+					return fmt.Errorf("second module: calling %s%v after the module finished changed frozen state:\nbefore: %s\nafter:  %s\n%s\n# ---- second module ----\n%s",
+						name, args, clip(beforeB), clip(after), c.Src, srcB)
+				}
+			}
+		}
+	}
+	_ = before
+
 	nt := false
 	for _, n := range nodes {
 		vk.S.Class("via:" + n.via)
@@ -397,6 +533,34 @@ func checkModule(c Case) error {
 		vk.S.Sample("module", fmt.Sprintf("fail=%v", err != nil), map[string]any{"src": c.Src, "nodes": len(nodes), "attempts": attempts})
 	}
 	return nil
+}
+
+// secondModule renders a module that uses the functions and values of a finished module (its globals are predeclared).
+func secondModule(g starlark.StringDict) string {
+	var sb strings.Builder
+	var names []string
+	for n := range g {
+		names = append(names, n)
+	}
+	sort.Strings(names)
+	i := 0
+	for _, n := range names {
+		if _, ok := g[n].(*starlark.Function); ok {
+			i++
+			// Results that are closures are kept but deliberately not called here: a value they capture must be
+			// frozen because it is reachable through the closure, not because it was also stored by itself.
+			fmt.Fprintf(&sb, "b%d_0 = attempt(%s)\n", i, n)
+			fmt.Fprintf(&sb, "b%d_1 = attempt(%s, [7, [8]])\n", i, n)
+			if i%2 == 0 {
+				fmt.Fprintf(&sb, "b%d_2 = attempt(b%d_1)\n", i, i)
+				fmt.Fprintf(&sb, "b%d_k = attempt(%s, k = {\"fresh\": [1]})\n", i, n)
+			}
+		}
+	}
+	sb.WriteString("b_mix = [" + strings.Join(names, ", ") + "]\n")
+	sb.WriteString("b_fresh = [[1], {\"k\": [2]}]\n")
+	sb.WriteString("def b_fn(d = [b_fresh]):\n    return d\n")
+	return sb.String()
 }
 
 func clip(s string) string {
